@@ -543,17 +543,19 @@ class Facts:
             raise KeyError(path)
         return f
 
-    def find(self, *frags, kind=None):
-        """Functions whose path contains all fragments."""
+    def find(self, *frags, kind=None, name=None):
+        """Functions whose path contains all fragments (and whose last segment is `name`)."""
         r = []
         for p, f in self.fns.items():
             if all(x in p for x in frags) and (kind is None or f.kind == kind):
+                if name is not None and last_seg(p) != name:
+                    continue
                 r.append(f)
         return r
 
-    def find1(self, *frags, kind=None):
+    def find1(self, *frags, kind=None, name=None):
         """Exactly one non-closure function whose path contains all fragments, else AnchorError."""
-        r = [f for f in self.find(*frags, kind=kind) if f.kind != "Closure" and "{closure" not in f.path]
+        r = [f for f in self.find(*frags, kind=kind, name=name) if f.kind != "Closure" and "{closure" not in f.path]
         if len(r) != 1:
             raise AnchorError("anchor %s resolves to %d functions: %s" % (
                 "+".join(frags), len(r), [f.path for f in r][:6]))
